@@ -443,7 +443,11 @@ class G:
         it = self.pick([("INSERT INTO", "INSERT_INTO"), ("INSERT OVERWRITE", "INSERT_OVERWRITE"), ("INSERT IGNORE INTO", "INSERT_IGNORE_INTO"), ("insert into", "INSERT_INTO"),
                         ("INSERT INTO TABLE", "INSERT_INTO"), ("INSERT OVERWRITE TABLE", "INSERT_OVERWRITE")])
         s, t = self.pick([None, "db"]), self.pick(["t", "tgt"])
-        text = it[0] + " " + ("%s.%s" % (s, t) if s else t)
+        wtext, wtree = "", EMPTY_WITH
+        if self.rich_on and r.random() < 0.25:
+            w, wtree = self.with_clause()                  # WITH ... INSERT: the clause belongs to the INSERT statement
+            wtext = w + " "
+        text = wtext + it[0] + " " + ("%s.%s" % (s, t) if s else t)
         part = None
         if r.random() < 0.3:
             k, v = self.pick(["dt", "h"]), self.pick(["'2024'", "1"])
@@ -464,10 +468,10 @@ class G:
                 vals = [self.atom() for _ in range(r.randint(1, 3))]
                 rows.append(("(" + ", ".join(v[0] for v in vals) + ")", N("ASTSubValueExpression", values=tuple(v[1] for v in vals))))
             text += " VALUES " + ", ".join(x[0] for x in rows)
-            return text, N("ASTInsertValuesStatement", with_clause=EMPTY_WITH, insert_type=N("ASTInsertType", enum="EnumInsertType." + it[1]), table_name=tbl(t, s),
+            return text, N("ASTInsertValuesStatement", with_clause=wtree, insert_type=N("ASTInsertType", enum="EnumInsertType." + it[1]), table_name=tbl(t, s),
                            partition=part, columns=cols, values=tuple(x[1] for x in rows))
         q, tq = self.select(allow_with=False)
-        return text + " " + q, N("ASTInsertSelectStatement", with_clause=EMPTY_WITH, insert_type=N("ASTInsertType", enum="EnumInsertType." + it[1]), table_name=tbl(t, s),
+        return text + " " + q, N("ASTInsertSelectStatement", with_clause=wtree, insert_type=N("ASTInsertType", enum="EnumInsertType." + it[1]), table_name=tbl(t, s),
                                   partition=part, columns=cols, select_statement=tq)
 
     def update(self):
@@ -492,6 +496,10 @@ class G:
             n = r.randint(1, 9)
             text += " LIMIT %d" % n
             tree["limit_clause"] = N("ASTLimitClause", limit=n, offset=None)
+        if self.rich_on and r.random() < 0.2:
+            w, wtree = self.with_clause()                  # WITH ... UPDATE
+            text = w + " " + text
+            tree["with_clause"] = wtree
         return text, tree
 
     def delete(self):
